@@ -82,6 +82,7 @@ def resolveSize (ctx : Ctx) : Val → M Val
       let a ← resolveInt ctx (startOr0 start)
       let s ← resolveInt ctx (stepOr1 step)
       let b ← resolveInt ctx stop
+      if s = 0 then .error (.jaqal "zero-step") else
       pure (.int (← rangeLen a b s))
   | _ => .error (.other "AttributeError")
 
